@@ -7,6 +7,10 @@ SEEDED = "/verif/seeded"
 
 # seeded change -> what happened the first time and what was strengthened
 HISTORY = {
+    "C04-18": "missed at first (an over-long value never had a sibling under the same number): directed cases now put the over-long value before, after and between siblings and behind other options",
+    "C06-18": "missed by C06 at first (set_content_format was only exercised by C19): the typed-accessor histories now include set_content_format, checked against the model of all other options",
+    "C09-23": "missed at first (budgets stopped at 1280 bytes although C09 does not bound them): a fifth of the plain requests now run under budgets up to 5000 bytes; the extended generator first failed on the unchanged tree (finding 17, fixed in fe4e012)",
+    "C17-19": "same shape as C17-6 / C17-11: caught by the unoptimised configuration, which the quick tier now runs",
     "C05-15": "missed by C05 at first (the Observe number space was only read through ObserveOption::try_from): all 65536 values now also go through CoapRequest::get_observe_flag, minimal and zero-padded",
     "C17-16": "missed at first (the checks called to_cow() and never the `From<Unquote> for Cow` conversion, as the coverage measurement had shown): every value is now also converted with Cow::from",
     "C19-20": "missed at first (the trait writers ran on a packet without payload): half of the writer cases now start from a packet that already has a payload",
